@@ -85,6 +85,12 @@ impl<B: Buffer> Editor<B> {
 //@             && final(self).line_bytes() == ac_apply(old(self).line_bytes(), old(self).ac_req_len(), final(a).state(), old(self).cap() as int)
 //@             && (final(a).state().auto is None ==> final(self).cur() == old(self).cur())
 //@             && (final(a).state().auto is Some ==> final(self).cur() == final(self).line().len()),   // [C11]
+//@     // C06 (character level): everything up to the cursor is unchanged, whatever the old line had beyond the new end
+//@     // was blank, and the cursor either stays (line unchanged) or goes to the end
+//@     ({ let l = old(self).line(); let c = old(self).cur() as int; let l2 = final(self).line();
+//@        &&& c <= l2.len() && l2.subrange(0, c) == l.subrange(0, c)
+//@        &&& forall|i: int| l2.len() <= i < l.len() ==> l[i] == ' '
+//@        &&& (final(self).cur() == l2.len() || (final(self).cur() == c && l2 == l)) }),   // [C06]
 //@ ---
 //@ let ghost line0 = self.line_bytes();
 //@ let ghost l0 = self.line();
@@ -127,6 +133,18 @@ impl<B: Buffer> Editor<B> {
 //@     }
 //@     valid_utf8_split(line0, request_len as int);
 //@     assert(b0.subrange(0, request_len as int) =~= line0.subrange(0, request_len as int));
+//@ }
+//@ proof {   // [C06]
+//@     // the request reaches at least to the cursor and only blanks follow it
+//@     if self.cursor < l0.len() {
+//@         let o = byte_off(l0, self.cursor as int);
+//@         let right = line0.subrange(o, line0.len() as int);
+//@         assert(o <= request_len);
+//@         assert forall|i: int| request_len <= i < line0.len() implies line0[i] == 0x20 by { assert(right[i - o] == line0[i]); }
+//@     } else {
+//@         assert(l0.subrange(0, self.cursor as int) =~= l0);
+//@         decode_utf8_encode_utf8(line0);
+//@     }
 //@ }
 
         // SAFETY: request_len is always less than or equal to buffer len
@@ -171,6 +189,10 @@ impl<B: Buffer> Editor<B> {
 //@         valid_utf8_concat(base, seq![0x20u8]);
 //@         assert(base + seq![0x20u8] =~= base.push(0x20u8));
 //@     }
+//@     // C06: the same in characters
+//@     let sp = !st.partial && request_len + x.len() < cap;
+//@     lemma_ac_chars(line0, old(self).cursor as int, request_len as int, x, sp);
+//@     assert(base + Seq::<u8>::empty() =~= base);
 //@ }
                 self.cursor = self.len();
                 return;
